@@ -29,6 +29,37 @@ def herd_for_round(run, rnd):
     return None
 
 
+_STOCK = {}
+
+
+def stock_row(cc):
+    if not _STOCK:
+        import csv
+        import os
+        with open(os.path.join(C.REPO, "data/no_food_trade/animal_feed_data/FAOSTAT_head_and_slaughter.csv")) as fh:
+            for r in csv.DictReader(fh):
+                _STOCK[r["iso3"]] = r
+    return _STOCK.get(cc)
+
+
+def configured_heads(run, h):
+    """[initial, configured] per species, in thousand head: the scenario's <species>_head override, else the stock table's value"""
+    row = stock_row(run["job"]["cc"])
+    out = []
+    for sp in h["species"]:
+        if sp.get("initial") is None or sp["initial"] != sp["initial"]:
+            continue
+        key = sp["type"] + "_head"
+        if key in run["job"]["options"]:
+            cfg = float(run["job"]["options"][key])
+        elif row is not None and row.get(key) not in (None, ""):
+            cfg = float(row[key])
+        else:
+            continue
+        out.append(dict(initial=num(sp["initial"], 1e3), configured=num(cfg, 1e3)))
+    return out
+
+
 def round_trace(run, lp):
     h = herd_for_round(run, lp["round"])
     if h is None:
@@ -42,6 +73,7 @@ def round_trace(run, lp):
     ev = [dict(ev="Begin", kind="humans" if lp["kind"] == "H" else "animals", round=lp["round"], n=n, kcalHead=kh,
                wDistMeat=num(inp["waste_dist_meat"]), wDistMilk=num(inp["waste_dist_milk"]), wRetail=num(inp["waste_retail"]),
                milkYield=num(inp["milk_yield"]), addMilk=inp["add_milk"], addMeat=lp["consts"]["add"]["meat"],
+               heads=configured_heads(run, h),
                kg=dict(chicken=num(inp["kg_meat_per_chicken"]), pig=num(inp["kg_meat_per_pig"]), large=num(inp["kg_meat_per_large_animal"])))]
     feed_charged = s["feed"] if lp["kind"] == "H" else s["max_feed"]
     # what the feed-maximising round allocated to feed each month (billion kcal), from its solution
